@@ -72,6 +72,20 @@ class _G:
         mk = lambda o: f"lambda {a}: (lambda q: q {o} {a})({m}){tail}"  # noqa: E731
         return mk(o1), mk(o2)
 
+    def private_pair(self, op, a):
+        """two lambdas that differ by one operator and mention a module variable spelled like a mangled class-private name (`_t__k`)"""
+        self.n += 1
+        k = self.draw(st.integers(2, 9))
+        tail = " > 0" if op == "Where" else ""
+        return f"lambda {a}: {a} * {k} + _t__k{tail}", f"lambda {a}: {a} * {k} - _t__k{tail}"
+
+    def cell_pair(self, op, a):
+        """two lambdas with the same argument, names and constants; only in the first the nested lambda uses the outer argument"""
+        self.n += 1
+        m = 1000 + self.n * 17
+        tail = " > 0" if op == "Where" else ""
+        return f"lambda {a}: (lambda q: q * 2 + {a})({m}){tail}", f"lambda {a}: (lambda q: q * 2)({m} + {a}){tail}"
+
     def attr_pair(self, op, a):
         """two lambdas with the same argument, the same SET of names and constants, first mentioned in a different order"""
         self.n += 1
@@ -353,14 +367,19 @@ def _unit(draw):
         # the two arms of a conditional expression are lambdas (only one of them is the callable that is passed)
         o = g.op()
         a1 = draw(st.sampled_from(ARGS))
-        a2 = a1 if draw(st.integers(0, 3)) == 0 else draw(st.sampled_from(ARGS))
+        a2 = a1 if draw(st.integers(0, 1)) == 0 else draw(st.sampled_from(ARGS))
         flag = draw(st.booleans())
         l1, l2 = g.lam(o, a1)[0], g.lam(o, a2)[0]
-        if a1 == a2 and draw(st.booleans()):
+        c_ = draw(st.integers(0, 5)) if a1 == a2 else 5
+        if c_ <= 1:
             l2 = g.twin(o, l1, a1) or l2
-        elif a1 == a2 and draw(st.booleans()):
-            l1, l2 = g.nested_pair(o, a1)
+        elif c_ <= 4:
+            l1, l2 = [g.nested_pair, g.private_pair, g.cell_pair][c_ - 2](o, a1)
+            if draw(st.booleans()):
+                l1, l2 = l2, l1
         body = f"FLAG = {flag}\nq = ds.{o}(({l1}) if FLAG else ({l2}))" if pick == 50 else f"FLAG = {flag}\nq = ds.{o}({l1} if FLAG else {l2})"
+        if "_t__k" in body:
+            body = f"_t__k = {1000 + g.n * 17}\n" + body
         sup = False
         label = "lambda-in-arm-of-conditional-expression"
     elif pick in (52, 53):
